@@ -24,6 +24,7 @@ RULE = (
     "window of length period contains at least limit+1 arrivals; patterns also start at non-round absolute loop times; "
     "distinct = distinct pattern+configuration"
 )
+RULE += '; the no-needless-delay condition is judged at arrival and at every instant of a wait'
 LEVEL_TEXT = (
     "Validity predicates over exact virtual start times: no half-open period window with more than limit starts, starts "
     "in arrival order, no delay when the stated condition holds, every call ends with the function's own outcome; "
@@ -33,7 +34,9 @@ LEVEL_NOTE = "Trusted: virtual-time loop and the rebinding of haiway.helpers.thr
 ASSUMPTIONS = [
     "arrival order is the order in which callers reach the wrapper (logged immediately before the call)",
     "callers cancelled while waiting or running are generated; for them only the window bound and FIFO order over the calls that do start are judged",
-    "only the stated no-needless-delay condition is asserted, not minimal delay in general",
+    "the no-needless-delay condition is the stated one (fewer than limit began in the preceding period, no earlier call waiting); "
+    "it is read at the arrival of a call and at every instant of its wait: once every earlier call has begun and the window has room the waiting call begins. "
+    "Nothing is demanded while an earlier call is still waiting or when a caller was cancelled",
 ]
 EXHAUSTIVE_MEANS = "thorough: all arrival patterns of <=4 calls on a half-period grid for every limit in 1..3 (zero-duration functions)"
 REQUIRED_CLASSES = ["overload-window", "timedelta-period", "burst", "function-raises", "cancelled-caller"]
@@ -42,6 +45,7 @@ REQUIRED_CLASSES = ["overload-window", "timedelta-period", "burst", "function-ra
 # periods that are not dyadic fractions (1/3, 0.1) make start times inexact in binary floating point: the window bound
 # and the delay obligation are judged with this tolerance (a real violation is off by a whole scheduling step)
 EPS = 1e-9
+LATE = 1e-6
 
 
 class ThrErr(Exception):
@@ -102,7 +106,14 @@ def run_case(case) -> Outcome:
                 await asyncio.sleep(calls[i]["a"])
             arrivals.append((i, loop.time() - t0))
             try:
-                results[i] = ("ret", await wrapped(i))
+                if case.get("in_scope"):
+                    # every caller lives in its own scope (one scope per request)
+                    from haiway import ctx
+
+                    async with ctx.scope(f"c{i}"):
+                        results[i] = ("ret", await wrapped(i))
+                else:
+                    results[i] = ("ret", await wrapped(i))
             except asyncio.CancelledError as exc:
                 results[i] = ("cancelled", exc)
                 if calls[i].get("cancel_at") is not None:
@@ -172,6 +183,25 @@ def run_case(case) -> Outcome:
                 f"call {i} arrived {a} started {s_of[i]} although only {len(began)} of limit {limit} began in the preceding period; starts={starts}",
             )
             break
+    # (3b) the same condition read at every instant of a wait: a call that is still waiting at the instant t at which
+    # every earlier call has begun and fewer than `limit` calls began in (t - period, t] is being delayed although the
+    # stated condition holds - it has to begin at that instant (LATE is far below one scheduling step of any pattern)
+    if not any_cancel and not out.violations and res.outcome != "hang":
+        for pos, (i, a) in enumerate(arrivals):
+            earlier = arr_order[:pos]
+            if i not in s_of or any(j not in s_of for j in earlier):
+                continue
+            free = max([a] + [s_of[j] for j in earlier])
+            cands = sorted({free} | {s_of[j] + period for j in earlier if s_of[j] + period > free})
+            allowed = next(t for t in cands if sum(1 for j in earlier if s_of[j] + period > t + EPS) < limit)
+            if s_of[i] > allowed + LATE:
+                out.violate(
+                    "delay",
+                    f"C15.delay/still-waiting-after-the-window-freed/{cfg}",
+                    f"call {i} arrived {a}, every earlier call had begun and fewer than {limit} began in the preceding period at "
+                    f"{allowed}, yet it began at {s_of[i]}; arrivals={arrivals} starts={starts} period={period}",
+                )
+                break
     # classes
     at = sorted(t for _, t in arrivals)
     overload = any(
@@ -238,7 +268,7 @@ def strategy(tier):
             calls.append({"a": a, "dur": dur, "out": draw(st.sampled_from(["value", "value", "exc"])), "cancel_at": cancel_at})
         # the pattern starts at an absolute time that is not a round number (nothing may depend on where the clock stands)
         t0 = draw(st.sampled_from([0, 0, 1 / 128, 37 / 128, 1000 + 5 / 1024]))
-        return {"limit": limit, "period": period, "form": form, "calls": calls, "t0": t0, "bystander": draw(st.integers(0, 3)) == 0}
+        return {"limit": limit, "period": period, "form": form, "calls": calls, "t0": t0, "bystander": draw(st.integers(0, 3)) == 0, "in_scope": draw(st.integers(0, 3)) == 0}
 
     return cases()
 
